@@ -35,7 +35,7 @@ PosDef(A) == IsPos(A[1][1]) /\ IsPos(Det(A))
 \* declarative sample covariance without any notion of a mean:
 \*   (1 / (2 N (N-1))) sum_{a,b} (x_a - x_b)(x_a - x_b)^T
 SampleCov(d) == [a \in Feat |-> [b \in Feat |->
-    Div(SumOver([ij \in Idx \X Idx |-> R((d[ij[1]][a] - d[ij[2]][a]) * (d[ij[1]][b] - d[ij[2]][b]))], Idx \X Idx),
+    Div(SumOver([i \in Idx |-> SumOver([j \in Idx |-> R((d[i][a] - d[j][a]) * (d[i][b] - d[j][b]))], Idx)], Idx),
         R(2 * N * (N - 1)))]]
 \* second moment about zero of a sequence of rational points, (N-1)-normalised
 Moment(c) == [a \in Feat |-> [b \in Feat |->
